@@ -26,9 +26,8 @@ def c_contracts():
     for fn in ("get_free_energy", "get_entropy", "get_heat_capacity"):
         for cl in (0, 1):
             def after(ex, outs, Vold, fn=fn, cl=cl):
-                if len(outs) != 1:
-                    raise CheckerError("%s: expected one path" % fn)
-                C_TERMS[(fn, cl)] = outs[0][1]
+                from pvc.cexec import merge_outcomes
+                C_TERMS[(fn, cl)] = merge_outcomes(outs)[1]
             cs.append(Contract(CF, fn, fixed={"classical": cl}, tag="[classical=%d]" % cl, macros={"KB": KB},
                                requires=lambda V: [V.p.temperature > 0, V.p.f > 0, KB > 0], after=after))
     return cs
@@ -47,8 +46,13 @@ def py_extract(run):
             fr = st.new(NDArr((1,), [f]))
             n0 = len(run.sink.obls)
             outs = ex.call_function(st, node, [T, fr], {"classical": cl})
-            if len(outs) != 1 or outs[0][1] != "return":
-                raise CheckerError("%s: expected a single return" % fn)
+            if any(o[1] != "return" for o in outs):
+                raise CheckerError("%s: a path does not return" % fn)
+            if len(outs) > 1:
+                m = ex.merge([(o[0], {"__r": o[2]}) for o in outs])
+                if m is None:
+                    raise CheckerError("%s: cannot merge %d return paths" % (fn, len(outs)))
+                outs = [(m[0], "return", m[1]["__r"])]
             s2, _, v = outs[0]
             if isinstance(v, pyexec.Ref):
                 o = s2.heap[v.id]
